@@ -159,8 +159,9 @@ fn sizes_for(op: &str, limit: u64, rng: &mut Rng, random: bool) -> Vec<i128> {
     if op.starts_with("vec_push") || op == "vec_new_lit" || op == "closures" {
         let per: i128 = if op == "vec_push_bool" { 1 } else if op.starts_with("vec_push") { 8 } else { 64 };
         // pushes up to and beyond the limit: the amortised doubling stops fitting, the exact fallback takes over, then OutOfMemory
-        return if random { vec![rng.range_i64(0, (2 * l / per) as i64) as i128] }
-               else { vec![-1, 0, 1, 100, l / per / 4, l / per / 2 + 1000, 3 * l / per / 4, l / per - 20_000 / per, l / per, 2 * l / per] };
+        // (the model replays every push: most random counts are small, a third reaches into the region near the limit)
+        return if random { vec![if rng.chance(2, 3) { rng.range_i64(0, 3000) } else { rng.range_i64(0, (l / per + 2000) as i64) } as i128] }
+               else { vec![-1, 0, 1, 100, l / per / 2 + 1000, l / per - 20_000 / per, l / per] };
     }
     if random {
         return vec![match rng.below(7) {
